@@ -1,0 +1,15 @@
+//go:build verif
+
+package lib
+
+import "sync/atomic"
+
+// VerifHook, when set, is called at every VerifPoint. Used by the verification harness
+// (build tag "verif") to order the atomic steps of concurrent goroutines deterministically.
+var VerifHook atomic.Pointer[func(label string, obj any)]
+
+func VerifPoint(label string, obj any) {
+	if h := VerifHook.Load(); h != nil {
+		(*h)(label, obj)
+	}
+}
